@@ -3,7 +3,8 @@ import subprocess
 import vlib
 
 RULE17 = ("explicit-state breadth-first search: state = concrete private coordinate vectors of 3 SpVecGF2 registers over coordinates {0..D-1, 2^40}; "
-          "transitions = every public operation (unit/set/default/copy/move construction, copy/move assignment incl. self, r_i=r_j+r_k, r_i+=r_j incl. aliasing, clear) "
+          "(gf2g configurations realise each abstract coordinate as a GROUP of consecutive or interleaved real coordinates, so vectors with dozens of ones are reached while the "
+          "abstract space stays 2^D per register); transitions = every public operation (unit/set/default/copy/move construction, copy/move assignment incl. self, r_i=r_j+r_k, r_i+=r_j incl. aliasing, clear) "
           "executed on the real objects; after every transition canonical form, equality with a dense bitmask model and all observations (size, iteration, "
           "all register dot products, products with all index sets) are checked; search runs to a fixpoint. distinct_nontrivial = distinct reachable states")
 RULE18 = ("(a) complete enumeration of argument boxes for ext_gcd, get_mult_inverse, is_prime with int, long, cpp_int against schoolbook references; "
@@ -26,7 +27,10 @@ def run17(tier):
                      "a moved-from register is re-initialised before it is observed (its content is unspecified by the property)",
                      "dimension bound: 3 registers, D small coordinates + one huge coordinate"]
     b = _b_spvec()
-    cfgs = ["gf2:3:2", "gf2:3:3"] + (["gf2:3:4", "gf2:2:5"] if tier == "thorough" else [])
+    # gf2:R:D = D plain coordinates + the huge one; gf2g:R:sizes[:i] = coordinate groups (long vectors), consecutive or interleaved
+    cfgs = ["gf2:3:2", "gf2:3:3", "gf2g:3:16-1-8-1", "gf2g:3:1-16-1-8:i", "gf2g:3:20-1-1-3", "gf2g:3:2-33-1-1:i", "gf2g:3:1-1-40-1"]
+    if tier == "thorough":
+        cfgs += ["gf2:3:4", "gf2:2:5", "gf2g:3:16-1-8-1-4", "gf2g:3:5-17-1-2-64:i", "gf2g:3:1-31-1-32-1", "gf2g:3:100-1-7-1:i", "gf2g:2:3-1-16-1-9-2"]
     r = vlib.run_harness(b, ["--configs", ",".join(cfgs)])
     c.add_run(r, "SpVecGF2 BFS to fixpoint, configs R:D = " + ",".join(cfgs), None, replay={"harness": "spvec_bfs"})
     # every trace of the BFS is an execution of the implementation itself (no separate model to conform)
